@@ -1,4 +1,5 @@
 import Oracle.AccessUtil
+import Oracle.SetUserLogins
 import MobiusModel.KickGrace
 /-! Oracle handlers for C06: the two account-creation paths and the disconnect decision. -/
 namespace Oracle
@@ -76,6 +77,6 @@ def c06Handlers : List (String × Handler) := [
           s!"{rep} bans={bans} scheduled={d.scheduled} notice={d.notice}"
       | none => "bad-op"
     | _ => "bad-op")
-]
+] ++ suLoginsHandlers
 
 end Oracle
